@@ -65,6 +65,11 @@ INTERPLAY = [
     # with items without `as`, several items, async
     "with x.lock:\n    pass", "with p.cm(x.arg):\n    pass", "with open(x.fn) as fh, y.guard:\n    fh.read()",
     "with x.a, y.b as t:\n    t.c",
+    # names bound / deleted only inside an except handler, a finally block, an else block
+    "try:\n    x.a\nexcept KeyError:\n    t = None\nt.b", "t = x\ntry:\n    pass\nexcept KeyError:\n    del t\nt.gone",
+    "try:\n    x.a\nexcept (KeyError, ValueError):\n    t = y.dflt\nelse:\n    u = 1\nfinally:\n    w = 2\nt.b\nu.c\nw.d",
+    "try:\n    return q[x.key]\nexcept KeyError:\n    value = f(x)\nq[x.key] = value\nreturn value",
+    "for t in x:\n    try:\n        pass\n    except KeyError:\n        u = t\n    u.in_loop",
 ]
 
 # a second module environment: local callables that reuse the names of plugin-analysed builtins
